@@ -17,7 +17,7 @@ Section ConcHandles.
     slot_lookup (c_slots (fst (exec_mop g s tid t m rest))) p = Some e.
   Proof.
     intros NT L. destruct t as [regs prog cont out].
-    destruct m as [q i first keep|q i cand keep|delta after|h|r|r report|tb q i|q o]; cbn [exec_mop].
+    destruct m as [q i rt first keep|q i off cand keep|delta after|h|r|r report|tb q i|q o]; cbn [exec_mop].
     - destruct (slot_lookup (c_slots s) (i :: q)); [|destruct (child_is_node g q i)]; cbn [fst upd_thread c_slots]; exact L.
     - destruct (slot_lookup (c_slots s) (i :: q)) eqn:Lq; cbn [fst upd_thread c_slots]; [exact L|].
       rewrite slot_lookup_cons. destruct (pos_eqb (i :: q) p) eqn:E; [|exact L].
@@ -84,7 +84,7 @@ Section ConcHandles.
     destruct t as [regs prog cont out]. cbn [t_cont] in Hc. subst cont.
     apply THOk_split in T. destruct T as (Tr & Tc & To).
     revert NT' M Others.
-    destruct m as [q i first keep|q i cand keep|delta after|h|r|r report|tb q i|q o]; cbn [exec_mop].
+    destruct m as [q i rt first keep|q i off cand keep|delta after|h|r|r report|tb q i|q o]; cbn [exec_mop].
     - destruct (slot_lookup (c_slots s) (i :: q)) as [e|] eqn:L; [|destruct (child_is_node g q i)];
         cbn [fst upd_thread c_slots c_torn c_threads t_regs t_prog t_out]; intros _ M Others; apply Forall_set_nth; auto;
         apply THOk_split; repeat split; auto.
